@@ -121,3 +121,102 @@ Proof.
   intros edits fn rs T KS Hre cap ck edit rbf w1 w2 b w1' w2' Hcap Hck Hh Hw1 Hw2 Hbytes' Te Ke Hio.
   exact (faulty_update_after_history u (f_stream f) _ K edits fn rs T KS Hre cap ck edit rbf w1 w2 b w1' w2' Hcap Hck Hh Hw1 Hw2 Hbytes' Te Ke Hio).
 Qed.
+
+(* ---- with the device holding the file as written, no typing hypothesis is left (WrittenBytes.v), also for the other two
+   front-ends; counters_fit comes through the equal sample-writer run *)
+
+Theorem byte_written_then_faulty_update : forall (u : list N -> bool),
+  (forall s, Forall (fun b => b < 128) s -> u s = true) ->
+  forall o L md5, (forall l, length (md5 l) = 16%nat) -> (forall l, Forall (fun b => b < 256) (md5 l)) ->
+  forall p rate bps ch, rate < 2 ^ 20 -> 1 <= bps -> bps <= 32 -> 1 <= ch -> ch <= 8 ->
+  forall en wo total w (chunks : list (list N)),
+  options_wf wo -> Forall plain (o_metadata wo) -> seektables (o_metadata wo) = 0%nat ->
+  byte_new p en [] wo rate bps ch total = Ok w ->
+  Forall byte_ok (concat chunks) ->
+  let nb := bytes_per_sample_of bps in
+  let samples := decoded en (N.to_nat nb) (concat chunks) in
+  forallb (FlacCodec.Wf.fits bps) samples = true ->
+  let W := N.of_nat (length samples) / ch in
+  1 <= W -> N.of_nat (length samples) < 2 ^ 36 ->
+  match total with Some T => T = nb * (ch * W) | None => True end ->
+  exists f blocks,
+    byte_run (FlacE2E.E2E.encB o L rate bps) md5 p w chunks = Ok f /\
+    concat (map FlacCodec.Stream.interleave_frame blocks) =
+      firstn (N.to_nat ch * (length samples / N.to_nat ch)) samples /\
+    Forall byte (f_stream f) /\
+    forall (cap : nat) (ck : list N -> list (list N)) (edit : U.blocklist FlacMeta.Blocks.block -> res (U.blocklist FlacMeta.Blocks.block)) (rbf : bool)
+           (w1 w2 : IO.world) (b : bool) (w1' w2' : IO.world),
+      (0 < cap)%nat -> IO.ck_ok ck -> FlacUpdIo.IoFault_proofs.honest (IO.sr (IO.wsched w1)) ->
+      IO.wdev w1 = {| IO.data := f_stream f; IO.pos := 0 |} -> IO.wdev w2 = {| IO.data := []; IO.pos := 0 |} ->
+      typed_edit u edit -> U.keeps_streaminfo FlacMeta.Blocks.block edit ->
+      IO.update_file_io FlacMeta.Blocks.block psize_r ser_r uclass_r (read_blocks_b u) true cap ck edit rbf w1 w2 = (Ok b, w1', w2') ->
+      let out := if b then IO.data (IO.wdev w2') else IO.data (IO.wdev w1') in
+      FlacCodec.Stream.dec_stream out =
+        Some (FlacE2E.Bridge.conv_si (f_si f), map FlacCodec.Stream.interleave_frame blocks, FlacCodec.Stream.EndEof) /\
+      FlacCodec.Spec.spec_stream out = FlacCodec.Spec.spec_stream (f_stream f) /\
+      exists meta_n, out = meta_n ++ frames_bytes (f_enc f).
+Proof.
+  intros u Hu o L md5 Hmd5 Hmd5b p rate bps ch Hrate Hb1 Hb32 Hc1 Hc8 en wo total w chunks Hwf Hpl Hs0 Hnew Hbytes nb samples Hfits W HW Hlen Htot.
+  destruct (byte_written_edited_then_faulty_update u Hu o L md5 Hmd5 Hmd5b p rate bps ch Hrate Hb1 Hb32 Hc1 Hc8 en wo total w chunks Hwf Hpl Hs0 Hnew Hbytes Hfits HW Hlen Htot) as (f & blocks & Hrun & Hcat & K).
+  destruct (FlacE2E.Transfer.byte_new_sample_new p en wo rate bps ch total w Hnew) as (ts & ws & Hs & Et).
+  pose proof (byte_writer_is_sample_writer (FlacE2E.E2E.encB o L rate bps) md5 p en wo rate bps ch total ts w ws chunks Hwf Hnew Hs Et Hbytes) as Eq.
+  fold nb in Eq. fold samples in Eq.
+  assert (Ec : concat [samples] = samples) by (cbn [concat]; apply app_nil_r).
+  assert (Hnb : 1 <= nb) by (unfold nb, bytes_per_sample_of; apply N.div_le_lower_bound; lia).
+  assert (Hts : match ts with Some T => T = ch * W | None => True end).
+  { destruct ts as [T|]; [|exact I]. subst total. cbn [option_map] in Htot. fold nb in Htot. nia. }
+  pose proof (FlacE2E.Success.sample_run_succeeds o L md5 Hmd5 p rate bps ch Hrate Hb1 Hb32 Hc1 Hc8 wo ts ws [samples] Hwf Hs) as S.
+  rewrite Ec in S. destruct (S Hfits HW Hlen Hts) as (f' & Hrun' & Hfit).
+  assert (Ef : f' = f) by (rewrite Eq, Hrun' in Hrun; inversion Hrun; reflexivity). subst f'.
+  pose proof (byte_written_file_is_bytes o L md5 Hmd5 Hmd5b p en wo rate bps ch total w chunks f Hwf Hpl Hs0 Hnew Hbytes Hrun Hfit) as Hby.
+  exists f, blocks. split; [exact Hrun|]. split; [exact Hcat|]. split; [exact Hby|].
+  intros cap ck edit rbf w1 w2 b w1' w2' Hcap Hck Hh Hw1 Hw2 Te Ke Hio.
+  exact (K [] (f_stream f) [] (Forall_nil _) (Forall_nil _) eq_refl cap ck edit rbf w1 w2 b w1' w2' Hcap Hck Hh Hw1 Hw2 Hby Te Ke Hio).
+Qed.
+
+Theorem channel_written_then_faulty_update : forall (u : list N -> bool),
+  (forall s, Forall (fun b => b < 128) s -> u s = true) ->
+  forall o L md5, (forall l, length (md5 l) = 16%nat) -> (forall l, Forall (fun b => b < 256) (md5 l)) ->
+  forall p rate bps ch, rate < 2 ^ 20 -> 1 <= bps -> bps <= 32 -> 1 <= ch -> ch <= 8 ->
+  forall wo total w (chunks : list (list (list Z))),
+  options_wf wo -> Forall plain (o_metadata wo) -> seektables (o_metadata wo) = 0%nat ->
+  channel_new p [] wo rate bps ch total = Ok w ->
+  Forall (chunk_ok (N.to_nat ch)) chunks ->
+  let samples := concat (multizip (cconcat (N.to_nat ch) chunks)) in
+  forallb (FlacCodec.Wf.fits bps) samples = true ->
+  let W := N.of_nat (length samples) / ch in
+  1 <= W -> N.of_nat (length samples) < 2 ^ 36 ->
+  match total with Some T => T = W | None => True end ->
+  exists f blocks,
+    channel_run (FlacE2E.E2E.encB o L rate bps) md5 p w chunks = Ok f /\
+    concat (map FlacCodec.Stream.interleave_frame blocks) =
+      firstn (N.to_nat ch * (length samples / N.to_nat ch)) samples /\
+    Forall byte (f_stream f) /\
+    forall (cap : nat) (ck : list N -> list (list N)) (edit : U.blocklist FlacMeta.Blocks.block -> res (U.blocklist FlacMeta.Blocks.block)) (rbf : bool)
+           (w1 w2 : IO.world) (b : bool) (w1' w2' : IO.world),
+      (0 < cap)%nat -> IO.ck_ok ck -> FlacUpdIo.IoFault_proofs.honest (IO.sr (IO.wsched w1)) ->
+      IO.wdev w1 = {| IO.data := f_stream f; IO.pos := 0 |} -> IO.wdev w2 = {| IO.data := []; IO.pos := 0 |} ->
+      typed_edit u edit -> U.keeps_streaminfo FlacMeta.Blocks.block edit ->
+      IO.update_file_io FlacMeta.Blocks.block psize_r ser_r uclass_r (read_blocks_b u) true cap ck edit rbf w1 w2 = (Ok b, w1', w2') ->
+      let out := if b then IO.data (IO.wdev w2') else IO.data (IO.wdev w1') in
+      FlacCodec.Stream.dec_stream out =
+        Some (FlacE2E.Bridge.conv_si (f_si f), map FlacCodec.Stream.interleave_frame blocks, FlacCodec.Stream.EndEof) /\
+      FlacCodec.Spec.spec_stream out = FlacCodec.Spec.spec_stream (f_stream f) /\
+      exists meta_n, out = meta_n ++ frames_bytes (f_enc f).
+Proof.
+  intros u Hu o L md5 Hmd5 Hmd5b p rate bps ch Hrate Hb1 Hb32 Hc1 Hc8 wo total w chunks Hwf Hpl Hs0 Hnew Hchunks samples Hfits W HW Hlen Htot.
+  destruct (channel_written_edited_then_faulty_update u Hu o L md5 Hmd5 Hmd5b p rate bps ch Hrate Hb1 Hb32 Hc1 Hc8 wo total w chunks Hwf Hpl Hs0 Hnew Hchunks Hfits HW Hlen Htot) as (f & blocks & Hrun & Hcat & K).
+  destruct (FlacE2E.Transfer.channel_new_sample_new p wo rate bps ch total w Hnew) as (ts & ws & Hs & Et).
+  pose proof (channel_writer_is_sample_writer (FlacE2E.E2E.encB o L rate bps) md5 p wo rate bps ch total ts w ws chunks Hwf Hnew Hs Et Hchunks) as Eq.
+  fold samples in Eq.
+  assert (Ec : concat [samples] = samples) by (cbn [concat]; apply app_nil_r).
+  assert (Hts : match ts with Some T => T = ch * W | None => True end).
+  { subst ts. destruct total as [T|]; cbn [option_map]; [|exact I]. subst T. reflexivity. }
+  pose proof (FlacE2E.Success.sample_run_succeeds o L md5 Hmd5 p rate bps ch Hrate Hb1 Hb32 Hc1 Hc8 wo ts ws [samples] Hwf Hs) as S.
+  rewrite Ec in S. destruct (S Hfits HW Hlen Hts) as (f' & Hrun' & Hfit).
+  assert (Ef : f' = f) by (rewrite Eq, Hrun' in Hrun; inversion Hrun; reflexivity). subst f'.
+  pose proof (channel_written_file_is_bytes o L md5 Hmd5 Hmd5b p wo rate bps ch total w chunks f Hwf Hpl Hs0 Hnew Hchunks Hrun Hfit) as Hby.
+  exists f, blocks. split; [exact Hrun|]. split; [exact Hcat|]. split; [exact Hby|].
+  intros cap ck edit rbf w1 w2 b w1' w2' Hcap Hck Hh Hw1 Hw2 Te Ke Hio.
+  exact (K [] (f_stream f) [] (Forall_nil _) (Forall_nil _) eq_refl cap ck edit rbf w1 w2 b w1' w2' Hcap Hck Hh Hw1 Hw2 Hby Te Ke Hio).
+Qed.
